@@ -46,7 +46,18 @@ def main():
 
 
 if __name__ == '__main__':
-    rc = main()
+    # Scratch space of this run: every process we start (scenario workers, the inner programs of the real-process
+    # engines, their children) puts its temporary files (multiprocessing's pymp-* directories, listener sockets)
+    # here; many of them leave through os._exit or are killed on purpose and would leave them behind in /tmp.
+    import shutil
+    import tempfile
+    _scratch = tempfile.mkdtemp(prefix='verif-run-')
+    os.environ['TMPDIR'] = _scratch
+    tempfile.tempdir = None
+    try:
+        rc = main()
+    finally:
+        shutil.rmtree(_scratch, ignore_errors=True)
     sys.stdout.flush()
     # we run in our own session (setsid in ./check): make sure nothing we started survives us
     try:
